@@ -196,6 +196,11 @@ func (conn *ConnectionSet) AddConnection(protocol v1.Protocol, ports *PortSet) {
 	if ports.IsEmpty() {
 		return
 	}
+	if conn.AllowAll {
+		// the full set holds every connection already; storing ports next to the AllowAll flag would
+		// make it unequal to the full set and leak these ports into a later Intersection
+		return
+	}
 	connPorts, ok := conn.AllowedProtocols[protocol]
 	if ok {
 		connPorts.Union(ports)
